@@ -461,22 +461,22 @@ def mk : Args → Except Err Req
   | .commCtrl ct comm sup => do let c ← natIn ct 128; let m ← natIn comm 256; pure (.commCtrl c m sup)
   | .testerPresent sup => pure (.testerPresent sup)
   | .controlDTC ty rec sup => do let t ← natIn ty 128; pure (.controlDTC t rec sup)
-  | .rdbi dids => do let ds ← natsIn dids 65536; require (ds ≠ []); pure (.rdbi ds)
+  | .rdbi dids => do require (dids ≠ []); let ds ← natsIn dids 65536; pure (.rdbi ds)
   | .rmba addr size alfid => do let (a, s, f) ← mkMem addr size alfid; pure (.rmba a s f)
   | .defineById ddid srcs poss sizes sup => do
       let d ← natIn ddid 65536
       require (srcs.length = poss.length ∧ srcs.length = sizes.length)
+      require (srcs ≠ [])
       let ss ← natsIn srcs 65536
       let ps ← natsIn poss 256
       let ms ← natsIn sizes 256
-      require (ss ≠ [])
       pure (.defineById d (ss.zip (ps.zip ms)) sup)
   | .defineByMem ddid addrs sizes alfid sup => do
       let d ← natIn ddid 65536
       require (addrs.length = sizes.length)
+      require (addrs ≠ [])
       let as ← natsIn addrs (256 ^ 15)
       let ss ← natsIn sizes (256 ^ 15)
-      require (as ≠ [])
       match alfid with
       | some f =>
         let f ← natIn f 256
